@@ -85,14 +85,20 @@ def suite_pairs(ctx):
     for (a, b) in pairs:
         for std in (2006, 2013, 2020):
             for ust in (True, False):
-                for kind in ('ok', 'neg', 'badecho', 'short', 'long'):
-                    if kind != 'ok' and rng.random() < 0.7:
+                for kind in ('ok', 'neg', 'badecho', 'short', 'long', 'rec4', 'rec2'):
+                    if kind in ('rec4', 'rec2'):
+                        # 2006 edition: the reply may carry a manufacturer-specific parameter record of any length - also one of exactly four
+                        # bytes, which is not a timing record there: accepted, nothing adopted
+                        if std != 2006 or rng.random() < 0.5:
+                            continue
+                    elif kind != 'ok' and rng.random() < 0.7:
                         continue
                     cfg = cl.Cfg(rt=None, p2=1024, p2s=5120, std=std)
                     client, conn = cl.make_client(cfg, extra={'use_server_timing': ust})
                     tim = struct.pack('>HH', a, b)
                     reply = {'ok': bytes([0x50, 3]) + (tim if std >= 2013 else b''), 'neg': b'\x7f\x10\x22', 'badecho': bytes([0x50, 2]) + tim,
-                             'short': bytes([0x50, 3]) + tim[:3], 'long': bytes([0x50, 3]) + tim + b'\x00'}[kind]
+                             'short': bytes([0x50, 3]) + tim[:3], 'long': bytes([0x50, 3]) + tim + b'\x00',
+                             'rec4': bytes([0x50, 3]) + tim, 'rec2': bytes([0x50, 3]) + tim[:2]}[kind]
                     conn.script = [(1, reply)]
                     how, verdict, flags, payload, exc, r = cl.observe_outer(conn, lambda: client.change_session(3))
                     t = client.get_session_timing()
@@ -102,7 +108,7 @@ def suite_pairs(ctx):
                     s.evaluations += 1
                     s.distinct.add('%d,%d,%d,%s,%s' % (a, b, std, ust, kind))
                     rec = {'site': 'change_session', 'a': a, 'b': b, 'std': std, 'use_server_timing': ust, 'reply': reply.hex(), 'input': kind}
-                    if kind == 'ok' and verdict != 'ok':
+                    if kind in ('ok', 'rec4', 'rec2') and verdict != 'ok':
                         s.fail(dict(rec, observed=verdict, required='accepted'))
                         continue
                     if kind in ('neg', 'badecho') and verdict == 'ok':
